@@ -204,6 +204,11 @@ func (h *Hub) Run() {
 					h.saveConnectionState(conn)
 				}
 
+				// The rooms no longer list the connection; its own record must
+				// agree (after the state above, which keeps the room names for
+				// reconnection, has been saved).
+				conn.clearRooms()
+
 				log.Printf("[WS] Connection unregistered: %s (total: %d)", conn.ID, len(h.connections))
 
 				// Call onDisconnect handlers (protected by handlerMu)
@@ -245,6 +250,7 @@ func (h *Hub) Run() {
 					conn.closeSend()
 					delete(h.connections, conn)
 					h.roomManager.RemoveConnectionFromAllRooms(conn)
+					conn.clearRooms()
 				}
 			}
 			h.connMu.Unlock()
